@@ -633,7 +633,8 @@ func runC16(w *mon.Worker) {
 type onceCall struct {
 	n          int
 	enter, ret int64
-	outcome    int // 0 success 1 error 2 block
+	outcome    int  // 0 success 1 error 2 block
+	ctxEnded   bool // outcome 2 ended because its context was done
 	val        int
 	err        error
 }
@@ -690,6 +691,7 @@ func onceCase(c *mon.Case) {
 			select {
 			case <-ctx.Done():
 				oc.err = ctx.Err()
+				oc.ctxEnded = true
 			case <-endCase:
 				oc.err = fmt.Errorf("fn-error-%d", n)
 			}
@@ -710,6 +712,7 @@ func onceCase(c *mon.Case) {
 		ctx         context.Context
 		cancel      context.CancelFunc
 		cancelAfter int // -1 never
+		timeout     bool
 		cancelStamp atomic.Int64
 		call, ret   int64
 		val         int
@@ -723,6 +726,13 @@ func onceCase(c *mon.Case) {
 		cl.ctx, cl.cancel = context.WithCancel(context.Background())
 		if r.IntN(3) == 0 {
 			cl.cancelAfter = r.IntN(40)
+		} else if r.IntN(4) == 0 {
+			// a caller whose context ends by deadline while it waits (or while the function it started runs)
+			cl.timeout = true
+			var c2 context.CancelFunc
+			cl.ctx, c2 = context.WithTimeout(cl.ctx, time.Duration(50+r.IntN(1500))*time.Microsecond)
+			defer c2()
+			c.Count("deadline_callers", 1)
 		}
 		cs[i] = cl
 		delay := r.IntN(30)
@@ -748,6 +758,11 @@ func onceCase(c *mon.Case) {
 		}
 	}
 	close(start)
+	for _, cl := range cs {
+		if cl.timeout {
+			<-cl.ctx.Done() // at most 1.6 ms; the judgement below is made after every deadline has passed
+		}
+	}
 	if !mon.Quiesce(10 * time.Second) {
 		close(endCase)
 		c.Inconclusive("no quiescence")
@@ -761,7 +776,7 @@ func onceCase(c *mon.Case) {
 	}
 	c.Count("once_cases_judged", 1)
 	for _, cl := range cs {
-		if !cl.returned.Load() && cl.cancelStamp.Load() == 0 {
+		if !cl.returned.Load() && cl.cancelStamp.Load() == 0 && !cl.timeout {
 			if mon.QuiesceConfirmed(100*time.Millisecond, 10*time.Second) && !cl.returned.Load() {
 				c.Violate("lost-wakeup", "once-live-caller-blocked", "caller %d with a live context is still blocked in Resolve in a quiescent process (function calls so far: %d)", cl.id, ncalls.Load())
 			}
@@ -802,7 +817,12 @@ func onceCase(c *mon.Case) {
 			}
 		case cl.err == context.Canceled:
 			cst := cl.cancelStamp.Load()
-			if cst == 0 || cst > cl.ret {
+			if cl.timeout {
+				// when the deadline passed is not observable; it has passed by now, which is all this branch needs
+				if len(calls) > 0 {
+					sawCancelledWaiter = true
+				}
+			} else if cst == 0 || cst > cl.ret {
 				c.Violate("once", "once-canceled-without-cancel", "caller %d got context.Canceled at %d, its context was cancelled at %d (0 = never)", cl.id, cl.ret, cst)
 			} else if len(calls) > 0 {
 				sawCancelledWaiter = true
@@ -818,6 +838,10 @@ func onceCase(c *mon.Case) {
 			}
 			if src == nil {
 				c.Violate("once", "once-foreign-error", "caller %d got error %v which no function call returned", cl.id, cl.err)
+				break
+			}
+			if src.ctxEnded {
+				c.Violate("once", "once-starter-context-error-leaked", "caller %d got %v, the error with which function call %d ended because the context of the caller that started it was done: another caller's cancellation must not keep this one from obtaining a result", cl.id, cl.err, src.n)
 				break
 			}
 			if src.ret < cl.call {
